@@ -142,8 +142,10 @@ def classify_layout(cls, desc, w, tb):
     return None
 
 
-def _layout_eval(desc, w, which):
-    """run one tree at one width through the three entry points; -> list of (site, cls, traceback tail)"""
+def _layout_eval(desc, ws, which):
+    """build the tree ONCE and run the same object through the entry points at every width of `ws`, in order (C14
+    quantifies over every input, not over fresh objects: a second render of the same Text / Table / Panel must not raise
+    either); -> list of (site, cls, traceback tail, width, position in ws)"""
     import traceback
 
     import lib_c14 as L
@@ -154,25 +156,56 @@ def _layout_eval(desc, w, which):
     try:
         r = L.build(desc)
     except BaseException as e:  # noqa: BLE001
-        return [("build", type(e).__name__, traceback.format_exc()[-1500:])]
+        return [("build", type(e).__name__, traceback.format_exc()[-1500:], ws[0] if ws else 0, 0)]
     con = _layout_eval.con
-    for site in which:
-        try:
-            with L.watchdog(10):
-                if site == "Console.render":
-                    for _ in con.render(r, con.options.update(width=w)):
-                        pass
-                elif site == "Measurement.get":
-                    m = Measurement.get(con, r, w)
-                    if not (0 <= m.minimum <= m.maximum <= max(w, 0)):
-                        out.append((site, "BadMeasurement", repr(m)))
-                else:
-                    Console(file=io.StringIO(), width=w, color_system=None).print(r)
-        except BaseException as e:  # noqa: BLE001
-            if isinstance(e, KeyboardInterrupt):
-                raise
-            out.append((site, type(e).__name__, traceback.format_exc()[-1500:]))
+    for pos, w in enumerate(ws):
+        for site in which:
+            try:
+                with L.watchdog(10):
+                    if site == "Console.render":
+                        for _ in con.render(r, con.options.update(width=w)):
+                            pass
+                    elif site == "Measurement.get":
+                        m = Measurement.get(con, r, w)
+                        if not (0 <= m.minimum <= m.maximum <= max(w, 0)):
+                            out.append((site, "BadMeasurement", repr(m), w, pos))
+                    else:
+                        Console(file=io.StringIO(), width=w, color_system=None).print(r)
+            except BaseException as e:  # noqa: BLE001
+                if isinstance(e, KeyboardInterrupt):
+                    raise
+                out.append((site, type(e).__name__, traceback.format_exc()[-1500:], w, pos))
     return out
+
+
+def _report(desc, ws, res, fails, sites):
+    """first failure per (site, class) of one tree: shrink (same width sequence up to the failing render) and record"""
+    import lib_c14 as L
+
+    seen = set()
+    for site, cls, tb, w, pos in res:
+        if (site, cls) in seen:
+            continue  # later renders of an object that already failed: the same defect
+        seen.add((site, cls))
+        seq = list(ws[: pos + 1])
+        cur = desc
+        slug = classify_layout(cls, cur, w, tb)
+        progress = True
+        budget = 40
+        while progress and budget > 0 and site != "build":
+            progress = False
+            for cand in L.shrink_candidates(cur):
+                budget -= 1
+                if budget <= 0:
+                    break
+                r2 = [x for x in _layout_eval(cand, seq, sites) if x[0] == site and x[1] == cls and x[4] == pos]
+                if r2 and classify_layout(cls, cand, w, r2[0][2]) == slug:
+                    cur, tb, progress = cand, r2[0][2], True
+                    break
+        # a failure that needs the earlier renders of the same object says so in its input
+        fresh = [x for x in _layout_eval(cur, [w], [site]) if x[1] == cls] if site != "build" else [1]
+        inp = (cur, w) if fresh else (cur, {"same object rendered at widths": seq})
+        fails.append((site, cls, slug, repr(inp), tb[-500:]))
 
 
 def _layout_worker(args):
@@ -194,28 +227,14 @@ def _layout_worker(args):
         for k in L.kinds(desc):
             notes["layout:kind:" + k] += 1
         notes["layout:size:%d" % min(L.size(desc) // 5 * 5, 40)] += 1
-        # the same tree object is rendered at several widths one after the other (stale per-object state shows)
-        for w in (rng.randint(1, 200), rng.randint(1, 12), rng.randint(1, 40)):
+        # the same tree OBJECT is rendered at several widths one after the other, the first width twice
+        w0 = rng.randint(1, 200)
+        ws = [w0, rng.randint(1, 12), rng.randint(1, 40), w0]
+        for w in ws[:3]:
             notes["layout:width:%s" % ("1-3" if w <= 3 else "4-12" if w <= 12 else "13-40" if w <= 40 else "41-200")] += 1
-            res = _layout_eval(desc, w, sites)
-            evals += len(sites)
-            for site, cls, tb in res:
-                # shrink: smaller trees that fail the same way at the same site
-                cur = desc
-                slug = classify_layout(cls, cur, w, tb)
-                progress = True
-                budget = 60
-                while progress and budget > 0:
-                    progress = False
-                    for cand in L.shrink_candidates(cur):
-                        budget -= 1
-                        if budget <= 0:
-                            break
-                        r2 = [x for x in _layout_eval(cand, w, [site] if site != "build" else []) if x[0] == site and x[1] == cls]
-                        if r2 and classify_layout(cls, cand, w, r2[0][2]) == slug:
-                            cur, tb, progress = cand, r2[0][2], True
-                            break
-                fails.append((site, cls, slug, repr((cur, w)), tb[-500:]))
+        res = _layout_eval(desc, ws, sites)
+        evals += len(sites) * len(ws)
+        _report(desc, ws, res, fails, sites)
     return evals, dict(notes), fails
 
 
@@ -250,11 +269,11 @@ def _small_worker(args):
         base = {1, 2, 3, 5} if quick and desc[0] == "table" else {1, 2, 3, 4, 5, 6}
         widths = sorted(base | {t + d for t in ths for d in (-1, 0, 1) if 1 <= t + d <= 200})
         notes["small:widths"] += len(widths)
-        for w in widths:
-            res = _layout_eval(desc, w, sites)
-            evals += len(sites)
-            for site, cls, tb in res:
-                fails.append((site, cls, classify_layout(cls, desc, w, tb), repr((desc, w)), tb[-500:]))
+        # the SAME object goes through the whole sweep (and the widest width once more)
+        ws = widths + widths[-1:]
+        res = _layout_eval(desc, ws, sites)
+        evals += len(sites) * len(ws)
+        _report(desc, ws, res, fails, sites)
     return evals, dict(notes), fails
 
 
